@@ -5,6 +5,7 @@ valid one the right way round, and that a role's panic payload survives the join
 unreported survivor of the mechanical mutation sweep (sa/py/mutsweep.py) before it became a rule."""
 from ru import *
 from rules_sched import sched
+import core
 
 
 def _rel_between(e, is_idx, is_bound):
@@ -240,6 +241,41 @@ def LC3_wait_predicates(ctx):
                         if strip(last[1]) not in caps:
                             badc.append((p, e))
             ctx.ob('LC3', cf, 'predicate-uses-current-cursor', not badc, f'{len(badc)} use(s) capture a stale cursor value', site=cf.loc(cf.b['lo']))
+
+
+_TRY = re.compile(r'::(try_lock|try_lock_for|try_lock_until|try_read|try_write|try_read_for|try_write_for|is_locked|try_get|try_get_mut|try_entry|try_recv)$')
+
+
+def LC9_predicates_ignore_contention(ctx):
+    """what a coordinator decides to sleep on is a function of the shared STATE, never of who happens to hold a lock"""
+    facts = ctx.facts
+    n = 0
+    for parent, slot in (('run_finality_loop', 'finality_wait'), ('run_commit_loop', 'commit_wait')):
+        pf = sched(ctx, parent)
+        closure_names = set()
+        for b in [pf.b] + [c for c in facts.bodies if c['fn'].startswith(pf.name + '::{closure')]:
+            for bl in b['blocks']:
+                t = bl['term']
+                if bl['cleanup'] or t['k'] != 'call' or not norm_callee(t['callee']).endswith('WaitSlot::wait_while'):
+                    continue
+                n += 1
+        # everything the loop (its predicate closures included) can call inside the crate
+        reach = facts.reach(pf.name) | {pf.name}
+        reach |= {c['fn'] for c in facts.bodies if any(c['fn'].startswith(r + '::{closure') for r in list(reach) if r.startswith(('scheduler', 'tx_dependency', 'beneficiary', '<scheduler')))}
+        bad = []
+        for b in facts.production():
+            if b['fn'] not in reach:
+                continue
+            for bl in b['blocks']:
+                t = bl['term']
+                if not bl['cleanup'] and t['k'] == 'call' and _TRY.search(norm_callee(t['callee'])):
+                    bad.append(f"{core.short_fn(b['fn'])}:{t['line']} {norm_callee(t['callee']).split('::')[-1]}")
+        ctx.ob('LC9', pf, 'decisions-do-not-depend-on-lock-contention', not bad, '; '.join(sorted(set(bad))[:4]), site=pf.loc(pf.b['lo']),
+               what=f'no non-blocking acquisition (try_lock & co.) in anything {parent} or its wait predicate calls: "the lock is busy" would be read as "nothing to do", '
+                    'and holders that release without notifying (stale claims, duplicate validations) leave the coordinator parked until the stall timer')
+    ctx.count('LC9.wait-sites', n)
+    if n < 2:
+        raise AnchorLost(f'wait_while call sites in the coordinator loops: {n}')
 
 
 def LC4_worker_keeps_followup(ctx):
